@@ -162,6 +162,7 @@ func runC12(c *Ctx) {
 		"C12.2 every identity kind (implementation of connect.CertURI) either has a case whose path to signing passes the matching …WriteAllowed check on the identity's own name with its error returned, or falls to the rejecting default; the signing step checks the trust domain (CanSign) for every kind it accepts, or rewrites it (agents)",
 		"C12.3 service, mesh-gateway and server identities are signed only below the datacenter-equal edge",
 		"C12.4 every certificate template of the built-in provider takes its serial number from the replicated serial counter; leaf templates are not CAs",
+		"C12.7 the identity the CA authorizes is the decoded one: no field of a parsed SPIFFE identity derives from an always-escaped form of the URI path (EscapedPath, String, RequestURI) except through url.PathUnescape, and where it derives from RawPath the unescape is guarded by the same RawPath test that selected it",
 		"C12.5 the roots table is written only by the CAS setter and by restore; the setter rejects a set without exactly one active root before writing",
 		"C12.6 no function of agent/consul writes through a pointer that a state-store reader hands out as the stored row itself (rows are immutable outside a Raft apply; CA rotation works on copies)",
 	}
@@ -473,6 +474,7 @@ func runC12(c *Ctx) {
 	checkCertTemplates(c)
 	checkRootsTable(c)
 	checkNoInPlaceMutationOfRows(c)
+	checkIdentityUnescaped(c)
 }
 
 // C12.4
@@ -774,4 +776,112 @@ func checkNoInPlaceMutationOfRows(c *Ctx) {
 	if nFns < 1000 {
 		r.MissingInstance("C12.6", "<functions>", fmt.Sprintf("only %d functions found", nFns))
 	}
+}
+
+// C12.7
+func checkIdentityUnescaped(c *Ctx) {
+	p, r := c.P, c.R
+	f := p.Func("agent/connect", "ParseCertURI")
+	if f == nil {
+		r.Unresolve("C12.7", "connect.ParseCertURI", "not found")
+		return
+	}
+	isUnescape := func(v ssa.Value) bool {
+		call, ok := v.(*ssa.Call)
+		return ok && strings.HasSuffix(core.CalleeName(&call.Call), "url.PathUnescape")
+	}
+	// the RawPath != "" tests
+	var rawNonEmpty []core.Edge
+	for _, b := range f.Blocks {
+		for _, in := range b.Instrs {
+			cmp, ok := in.(*ssa.BinOp)
+			if !ok || (cmp.Op != token.NEQ && cmp.Op != token.EQL) {
+				continue
+			}
+			if s, ok := core.ConstString(cmp.Y); !ok || s != "" {
+				continue
+			}
+			if core.AccessOf(cmp.X).LastField() != "RawPath" {
+				continue
+			}
+			te, fe := core.CondEdges(cmp)
+			if cmp.Op == token.NEQ {
+				rawNonEmpty = append(rawNonEmpty, te...)
+			} else {
+				rawNonEmpty = append(rawNonEmpty, fe...)
+			}
+		}
+	}
+	n := 0
+	perType := map[string]int{}
+	for _, b := range f.Blocks {
+		for _, in := range b.Instrs {
+			st, ok := in.(*ssa.Store)
+			if !ok {
+				continue
+			}
+			fa, ok := st.Addr.(*ssa.FieldAddr)
+			if !ok {
+				continue
+			}
+			nt := core.NamedOf(fa.X.Type())
+			if nt == nil || !strings.HasPrefix(nt.Obj().Name(), "SpiffeID") {
+				continue
+			}
+			if bt, ok := st.Val.Type().Underlying().(*types.Basic); !ok || bt.Kind() != types.String {
+				continue
+			}
+			n++
+			construct := "connect.ParseCertURI/" + nt.Obj().Name() + "." + core.FieldObj(fa).Name()
+			perType[construct]++
+			bad := ""
+			usesRaw := false
+			for _, leaf := range core.Leaves(st.Val, core.SliceOpts{ThroughCalls: true, StopAt: isUnescape}) {
+				switch x := leaf.(type) {
+				case *ssa.Call:
+					if isUnescape(x) {
+						continue
+					}
+					switch core.MethodNameOf(&x.Call) {
+					case "EscapedPath", "RequestURI", "String":
+						if strings.Contains(core.ShortType(x.Call.Args[0].Type()), "url.URL") {
+							bad = "derives from (*url.URL)." + core.MethodNameOf(&x.Call) + "(), which is always percent-encoded, on a path that does not pass url.PathUnescape"
+						}
+					}
+				case *ssa.UnOp:
+					if core.AccessOf(x).LastField() == "RawPath" {
+						usesRaw = true
+					}
+				}
+			}
+			if bad == "" && usesRaw {
+				// the unescape calls feeding this field lie below a RawPath != "" edge, and the raw text reaches the field only …
+				okGuard := len(rawNonEmpty) > 0
+				for _, leaf := range core.Leaves(st.Val, core.SliceOpts{}) {
+					if call, ok := leaf.(*ssa.Call); ok && isUnescape(call) {
+						if !core.CutMakesUnreachable(f, nil, rawNonEmpty, call) {
+							okGuard = false
+						}
+					}
+				}
+				hasUnescape := false
+				for _, leaf := range core.Leaves(st.Val, core.SliceOpts{}) {
+					if call, ok := leaf.(*ssa.Call); ok && isUnescape(call) {
+						hasUnescape = true
+					}
+				}
+				if !hasUnescape {
+					bad = "derives from the percent-encoded RawPath and is never unescaped"
+				} else if !okGuard {
+					bad = "is unescaped under a condition other than the RawPath test that selected the encoded path"
+				}
+			}
+			if bad != "" {
+				r.Violate("C12.7", construct, p.Pos(st.Pos()), "the identity field "+bad+": the ACL and datacenter checks run on the encoded text (service \"web%20x\") while the certificate carries the URI that verifiers decode (\"web x\") — a token with write on one name obtains a certificate for another")
+			} else {
+				r.Hold("C12.7", construct, p.Pos(st.Pos()), "decoded wherever the encoded path is used")
+			}
+		}
+	}
+	r.Floor("C12.7", 8)
 }
